@@ -779,10 +779,13 @@ class Analysis:
         if dotted:
             if dotted.startswith('numpy.random.') and dotted.count('.') == 2:
                 fn_name = dotted.split('.')[-1]
+                none_arg = (not e.args and not e.keywords) or \
+                    (e.args and isinstance(e.args[0], ast.Constant) and e.args[0].value is None)
                 if fn_name == 'seed':
-                    self._add_rng(('npSeed', ''))
+                    # np.random.seed() / seed(None) re-seeds from the operating system
+                    self._add_rng(('entropy', 'np.random.seed() without a seed') if none_arg else ('npSeed', ''))
                 elif fn_name in ('RandomState', 'default_rng', 'Generator'):
-                    self._add_rng(('fresh', fn_name) if e.args or e.keywords else ('entropy', fn_name))
+                    self._add_rng(('entropy', fn_name + ' without a seed') if none_arg else ('fresh', fn_name))
                 else:
                     self._add_rng(('npGlobal', fn_name))
             elif dotted.startswith('random.') and dotted.count('.') == 1:
@@ -795,7 +798,11 @@ class Analysis:
         if isinstance(f, ast.Name) and f.id in ('id', 'hash') and f.id not in self._locals():
             self._add_rng(('entropy', 'builtin %s() (address / per-process string hashing)' % f.id))
         if ch:
-            if ch[-1] in ('eigsh', 'svds', 'eigs', 'lobpcg'):
+            if ch[-1] == 'svds':
+                # scipy's svds(solver='arpack') calls eigsh without its rng: the restarts of ARPACK stay OS-seeded whatever
+                # arguments it is given
+                self._add_rng(('entropy', 'svds does not forward rng to eigsh'))
+            elif ch[-1] in ('eigsh', 'eigs', 'lobpcg'):
                 # ARPACK: the start vector and (recent SciPy) the generator of the restart vectors must both be given
                 v0 = [kw for kw in e.keywords if kw.arg in ('v0', 'X')]
                 seeded = any(kw.arg in ('rng', 'random_state') for kw in e.keywords) or \
@@ -893,7 +900,7 @@ class Analysis:
                 mod = self.t.classes[cls].module if cls in self.t.classes else None
                 px = self.t.pyx_of(mod, nm) if mod else None
                 if px:
-                    kind = _pyx_rand_kind(self.t.pyx[px], self.t.imports[mod][nm][1], len(e.args) + len(e.keywords))
+                    kind = _pyx_rand_kind(self.t.pyx[px], self.t.imports[mod][nm][1], e)
                     if kind == 'cRand':
                         self._add_rng(('cRand', px.split('.')[-1] + '.' + nm))
                     elif kind == 'seeded':
@@ -1001,8 +1008,7 @@ class Analysis:
                         if r:
                             out += self._func_rng(r[0], r[1], depth + 1)
                         px = self.t.pyx_of(mod, n.func.id)
-                        if px and _pyx_rand_kind(self.t.pyx[px], self.t.imports[mod][n.func.id][1],
-                                                 len(n.args) + len(n.keywords)) == 'cRand':
+                        if px and _pyx_rand_kind(self.t.pyx[px], self.t.imports[mod][n.func.id][1], n) == 'cRand':
                             out.append(('cRand', px.split('.')[-1] + '.' + n.func.id))
         self._func_rng_memo[key] = out
         return out
@@ -1043,8 +1049,10 @@ _PYX_RAND_MEMO = {}
 
 
 def _pyx_rand_info(src):
-    """Per function of a .pyx source: does it call the C library's rand(), does it call srand(), how many
-    parameters does it take.  (Cython's parser; regex fallback for the whole module under the key '*'.)"""
+    """Per function of a .pyx source: does it (or a function of the module it calls) draw from the C library's rand();
+    is the generator re-seeded with srand() *before the first draw on every path*: unconditionally, or under a guard
+    `if <p> >= 0` on the very parameter `p` it seeds with (then the call site decides); parameter names.
+    (Cython's parser; regex fallback for the whole module under the key '*'.)"""
     key = hash(src)
     if key in _PYX_RAND_MEMO:
         return _PYX_RAND_MEMO[key]
@@ -1052,6 +1060,9 @@ def _pyx_rand_info(src):
     try:
         from Cython.Compiler.TreeFragment import parse_from_strings
         tree = parse_from_strings('m', src)
+
+        def tn(n):
+            return type(n).__name__
 
         def walk(n):
             yield n
@@ -1062,39 +1073,102 @@ def _pyx_rand_info(src):
                 for x in (c if isinstance(c, list) else [c]):
                     if hasattr(x, 'child_attrs'):
                         yield from walk(x)
+
+        def called(n):
+            if tn(n) in ('SimpleCallNode', 'GeneralCallNode') and tn(n.function) == 'NameNode':
+                return str(n.function.name)
+            return None
+
+        def srand_arg(stat):
+            """`srand(p)` as a statement -> name of p ('' when the argument is not a plain name), else None"""
+            if tn(stat) == 'ExprStatNode' and called(stat.expr) in ('srand', 'srandom', 'srand48'):
+                a = list(getattr(stat.expr, 'args', None) or [])
+                return str(a[0].name) if len(a) == 1 and tn(a[0]) == 'NameNode' else ''
+            return None
+        funcs = {}
         for fn in walk(tree):
-            if type(fn).__name__ not in ('DefNode', 'CFuncDefNode'):
+            if tn(fn) not in ('DefNode', 'CFuncDefNode'):
                 continue
-            if type(fn).__name__ == 'DefNode':
+            if tn(fn) == 'DefNode':
                 name = str(fn.name)
-                nparams = len(fn.args)
+                params = [str(getattr(a.declarator, 'name', '') or getattr(getattr(a.declarator, 'base', None), 'name', '') or '')
+                          for a in fn.args]
             else:
                 d = fn.declarator
-                nparams = len(getattr(d, 'args', []) or [])
+                args = getattr(d, 'args', []) or []
+                params = [str(getattr(a.declarator, 'name', '') or '') for a in args]
                 while hasattr(d, 'base') and not getattr(d, 'name', None):
                     d = d.base
                 name = str(getattr(d, 'name', '?'))
-            rec = {'rand': False, 'srand': False, 'nparams': nparams}
+            funcs[name] = (fn, params)
+        for name, (fn, params) in funcs.items():
+            calls, draw_pos, seed_pos = set(), [], []
             for n in walk(fn.body):
-                if type(n).__name__ in ('SimpleCallNode', 'GeneralCallNode'):
-                    f = n.function
-                    if type(f).__name__ == 'NameNode':
-                        if str(f.name) in ('rand', 'random', 'drand48', 'lrand48'):
-                            rec['rand'] = True
-                        if str(f.name) in ('srand', 'srandom', 'srand48'):
-                            rec['srand'] = True
-            info[name] = rec
+                c = called(n)
+                if c:
+                    calls.add(c)
+                    if c in ('rand', 'random', 'drand48', 'lrand48', 'rand_r'):
+                        draw_pos.append(n.pos[1:])
+                    if c in ('srand', 'srandom', 'srand48'):
+                        seed_pos.append(n.pos[1:])
+            mode, guard_param = None, None
+            stats = fn.body.stats if tn(fn.body) == 'StatListNode' else [fn.body]
+            for st in stats:
+                a = srand_arg(st)
+                if a is not None:
+                    mode = 'always'
+                    break
+                if tn(st) == 'IfStatNode' and len(st.if_clauses) == 1 and st.else_clause is None:
+                    cl = st.if_clauses[0]
+                    cond = cl.condition
+                    body = cl.body.stats if tn(cl.body) == 'StatListNode' else [cl.body]
+                    if tn(cond) == 'PrimaryCmpNode' and tn(cond.operand1) == 'NameNode' and str(cond.operator) in ('>=', '>') \
+                            and tn(cond.operand2) == 'IntNode' and str(cond.operand2.value) == '0' and len(body) == 1:
+                        a = srand_arg(body[0])
+                        if a and a == str(cond.operand1.name) and a in params:
+                            mode, guard_param = 'guarded', a
+                            break
+            info[name] = {'rand': bool(draw_pos), 'own_draws': draw_pos, 'calls': calls, 'seed_mode': mode,
+                          'guard_param': guard_param, 'seed_pos': seed_pos, 'params': params, 'nparams': len(params)}
+        # a draw through a helper of the module is a draw (propagate to a fixed point); such a function never counts as
+        # seeded-before-first-draw unless its own srand statement comes first in the source
+        changed = True
+        while changed:
+            changed = False
+            for name, rec in info.items():
+                if not rec['rand'] and any(info.get(c, {}).get('rand') for c in rec['calls'] if c != name):
+                    rec['rand'] = True
+                    changed = True
+        for name, rec in info.items():
+            first_seed = min(rec['seed_pos']) if rec['seed_pos'] else None
+            helper_draw = any(info.get(c, {}).get('rand') for c in rec['calls'] if c in info and c != name)
+            first_draw = min(rec['own_draws']) if rec['own_draws'] else None
+            rec['seed_first'] = first_seed is not None and (first_draw is None or first_seed < first_draw) and \
+                (not helper_draw or rec['seed_mode'] is not None)
     except Exception:
         import re
-        info['*'] = {'rand': bool(re.search(r'(?<![A-Za-z0-9_.])rand\s*\(', src)),
-                     'srand': bool(re.search(r'(?<![A-Za-z0-9_.])srand\s*\(', src)), 'nparams': 10 ** 6}
+        info['*'] = {'rand': bool(re.search(r'(?<![A-Za-z0-9_.])rand\s*\(', src)), 'seed_mode': None, 'seed_first': False,
+                     'guard_param': None, 'params': [], 'nparams': 10 ** 6}
     _PYX_RAND_MEMO[key] = info
     return info
 
 
-def _pyx_rand_kind(src, fname, nargs):
-    """None: no C rand(); 'cRand': unseeded; 'seeded': the function re-seeds with srand() and the call passes all
-    its parameters (the seed included)."""
+def _nonneg_expr(node):
+    """Is an argument expression certainly not `None` / negative by its form?  (a plain name, attribute or call; no
+    constant that is None or negative, no conditional expression, no unary minus)"""
+    for n in ast.walk(node):
+        if isinstance(n, ast.IfExp) or (isinstance(n, ast.UnaryOp) and isinstance(n.op, ast.USub)):
+            return False
+        if isinstance(n, ast.Constant) and (n.value is None or (isinstance(n.value, (int, float)) and not isinstance(n.value, bool)
+                                                               and n.value < 0)):
+            return False
+    return True
+
+
+def _pyx_rand_kind(src, fname, call):
+    """None: no C rand(); 'seeded': srand() dominates every draw — it is the first rand-family call of the function
+    and runs unconditionally, or under `if p >= 0` on the parameter it seeds with while the call site passes for `p` an
+    expression that cannot be None / negative by its form; 'cRand' otherwise."""
     info = _pyx_rand_info(src)
     rec = info.get(fname) or info.get('*')
     if rec is None:
@@ -1102,8 +1176,21 @@ def _pyx_rand_kind(src, fname, nargs):
         return 'cRand' if any(r['rand'] for r in info.values()) else None
     if not rec['rand']:
         return None
-    if rec['srand'] and nargs >= rec['nparams']:
+    if not rec.get('seed_first'):
+        return 'cRand'
+    if rec['seed_mode'] == 'always':
         return 'seeded'
+    if rec['seed_mode'] == 'guarded':
+        p = rec['guard_param']
+        idx = rec['params'].index(p)
+        arg = None
+        if idx < len(call.args):
+            arg = call.args[idx]
+        for kw in call.keywords:
+            if kw.arg == p:
+                arg = kw.value
+        if arg is not None and _nonneg_expr(arg):
+            return 'seeded'
     return 'cRand'
 
 
